@@ -9,9 +9,15 @@ Theorem C14_rabbit_exclusive_delivery : forall s s' d,
   (forall i, occ i s <= 1) -> deliver_one s = Some (s', d) -> cntu (a_id (d_msg d)) (unacked s) = 0.
 Proof. exact rabbit_exclusive_delivery. Qed.
 
+(* ... and that premise holds in every reachable state: no id is in two places, so a message held (unacknowledged) by a
+   consumer is in no queue and cannot be delivered to another one *)
+Theorem C14_rabbit_one_place_always : forall e h, wb_hist e world0 h -> forall i, occ i (w_srv (run_ops e world0 h)) <= 1.
+Proof. exact rabbit_no_duplicates_from_empty. Qed.
+
 Theorem C14_rabbit_fresh_tag : forall s s' d, TagsBelow s -> deliver_one s = Some (s', d) ->
   Forall (fun u => u_tag u <> d_tag d) (unacked s) /\ TagsBelow s'.
 Proof. exact rabbit_fresh_tag. Qed.
 
 Print Assumptions C14_rabbit_exclusive_delivery.
 Print Assumptions C14_rabbit_fresh_tag.
+Print Assumptions C14_rabbit_one_place_always.
